@@ -10,6 +10,7 @@ import DvcData.Model.Transfer
 import DvcData.Model.IndexDiff
 import DvcData.Model.IndexCheckout
 import DvcData.Model.State
+import DvcData.Model.Store
 open Lean DvcData
 
 /-! Line-protocol driver: one JSON request per line on stdin, one JSON answer per line on stdout.
@@ -468,6 +469,48 @@ def opStateHistory (j : Lean.Json) : Except String Lean.Json := do
     outs := outs.push out
   pure (Lean.Json.mkObj [("results", Lean.Json.arr outs)])
 
+/-! ### object store integrity histories (md5 stores: the driver computes the digests itself) -/
+
+def md5H : State.Algo → State.Bytes → State.Digest := fun _ b => Md5.hex (ByteArray.mk b.toArray)
+
+def storeTo (st : Store.Store) : Lean.Json :=
+  Lean.Json.arr (st.map fun e => Lean.Json.arr #[.str e.1, .str (md5Of e.2.data), .bool e.2.prot]).toArray
+
+def checkResTo : Store.CheckRes → String
+  | .ok => "ok" | .notFound => "FileNotFoundError" | .corrupt => "ObjectFormatError"
+
+def storeStep (s : State.Db × Store.Store) (j : Lean.Json) : Except String ((State.Db × Store.Store) × Lean.Json) := do
+  let (db, st) := s
+  let localClass := boolOf j "local"
+  match (← str j "op") with
+  | "put" =>
+    let oid ← str j "oid"
+    let data ← unhex (← str j "data")
+    let stamp ← stampOf (← j.getObjVal? "stamp")
+    pure ((db, st.set oid { data, prot := boolOf j "prot", stamp }), .null)
+  | "rm" => pure ((db, st.erase (← str j "oid")), .null)
+  | "save" =>
+    let oid ← str j "oid"
+    let v ← str j "value"
+    pure ((State.save db (Store.fsOf st) oid "md5" v, st), .null)
+  | "check" =>
+    let (r, st', db') := Store.check md5H localClass "md5" db st (← str j "oid")
+    pure ((db', st'), Lean.Json.mkObj [("res", checkResTo r), ("store", storeTo st')])
+  | "oids_exist" =>
+    let (found, st', db') := Store.oidsExistLocal md5H "md5" (← strList j "oids") db st
+    pure ((db', st'), Lean.Json.mkObj [("found", strArr found), ("store", storeTo st')])
+  | o => throw s!"bad store op {o}"
+
+def opStoreHistory (j : Lean.Json) : Except String Lean.Json := do
+  let ops ← arr j "ops"
+  let mut s : State.Db × Store.Store := ([], [])
+  let mut outs : Array Lean.Json := #[]
+  for o in ops do
+    let (s', out) ← storeStep s o
+    s := s'
+    outs := outs.push out
+  pure (Lean.Json.mkObj [("results", Lean.Json.arr outs)])
+
 def kindOf (s : String) : Except String Merge.Kind :=
   match s with
   | "add" => pure .add | "remove" => pure .remove | "change" => pure .change
@@ -505,6 +548,7 @@ def dispatch (j : Json) : Except String Json := do
   | "diff_entry" => opDiffEntry j
   | "idx_checkout" => opIdxCheckout j
   | "state_history" => opStateHistory j
+  | "store_history" => opStoreHistory j
   | "ping" => pure (Json.mkObj [("pong", true)])
   | op => throw s!"unknown op {op}"
 
